@@ -165,7 +165,8 @@ def run_tlc(spec, cfg, workdir, env=None, workers=4, timeout=1800, heap="8g",
         if ln.startswith("Model checking completed") or ln.startswith("Finished in"):
             r.completed = True
         if ln.startswith("Error: "):
-            if (ln.startswith("Error: Invariant ") and ln.rstrip().endswith("is violated.")) \
+            if (ln.startswith("Error: Invariant ") and (ln.rstrip().endswith("is violated.")
+                                                          or ln.rstrip().endswith("is violated by the initial state:"))) \
                or ln.startswith("Error: Action property ") \
                or ln.startswith("Error: Deadlock reached") \
                or ln.startswith("Error: Temporal properties were violated"):
@@ -180,6 +181,9 @@ def run_tlc(spec, cfg, workdir, env=None, workers=4, timeout=1800, heap="8g",
                 # collect the behaviour
                 states, j = [], i + 1
                 cur = None
+                if ln.rstrip().endswith("by the initial state:"):
+                    cur = []
+                    states.append(cur)
                 while j < len(lines):
                     l2 = lines[j]
                     if _state_hdr.match(l2):
@@ -191,6 +195,8 @@ def run_tlc(spec, cfg, workdir, env=None, workers=4, timeout=1800, heap="8g",
                             or l2.startswith("Finished computing") or l2.startswith("Progress("):
                         break
                     elif cur is not None:
+                        if l2.strip() == "" and ln.rstrip().endswith("by the initial state:") and cur:
+                            break
                         cur.append(l2)
                     j += 1
                 r.violations.append({"inv": name, "states": [parse_state_block(s) for s in states]})
@@ -335,7 +341,8 @@ class Run:
                         "what": "event %d (run %s, %s) rejected by %s: %s" % (
                             ln, runid, (rec or {}).get("ev"), spec, ",".join(sorted(hard))),
                         "replay": {"kind": "trace", "leg": name, "emit": emit_args, "spec": spec, "cfg": cfg,
-                                   "line": ln, "run": runid, "why": sorted(why), "verdict": sorted(verdict) if verdict else None,
+                                   "line": ln, "run": runid, "why": sorted(why), "hard": sorted(hard),
+                                   "verdict": sorted(verdict) if verdict else None,
                                    "record": _shorten(rec, 3000) if rec else None,
                                    "seed": self.seed, "tier": self.tier}})
             elif soft:
@@ -394,6 +401,11 @@ class Run:
         known = known_for(self.pid)
         real = []
         for v in self.violations:
+            hits = match_known_why(known, v)
+            if hits:
+                for h in hits:
+                    self.known_hits.append((h, v))
+                continue
             hit = match_known(known, v)
             if hit is not None:
                 self.known_hits.append((hit, v))
@@ -453,6 +465,23 @@ def _shorten(rec, limit=400):
     if len(s) <= limit:
         return rec
     return {"truncated": s[:limit] + "..."}
+
+
+def match_known_why(known, v):
+    """Trace legs: a rejected event is a known finding iff every failed check that decides the
+    property is named by some known entry (match.why); returns the entries used."""
+    hard = v["replay"].get("hard")
+    if not hard:
+        return []
+    used = []
+    for name in hard:
+        e = [k for k in known if name in k.get("match", {}).get("why", [])]
+        if not e:
+            return []
+        for k in e:
+            if k not in used:
+                used.append(k)
+    return used
 
 
 def match_known(known, v):
@@ -527,6 +556,77 @@ def c15(run):
              "TLC enumerates every completion (exact decision), random pairs with arbitrary masks whose unknown bits "
              "are re-drawn 64 times through the real operators (witnesses), fully initialized pairs",
         level_note="verdict by witness at 16 bits; equality of the mask with the specification's propagation rule is drift only")
+
+
+@check("C10")
+def c10(run):
+    r, path, n, rej = run.trace_leg("transparent", ["machine", "kind=transparent"], verdict=["intgate", "panic"])
+    run.trace_leg("transparent_rel", ["machine", "kind=transparent"], spec="TV_Pairs", cfg="TV_Pairs.cfg",
+                  verdict=PAIRV + ["interrupt-not-transparent"], expect_all=False, path=path)
+    run.trace_leg("int", ["machine", "kind=int"], verdict=["intgate", "panic"])
+    return run.finish(
+        rule="a program with a stack, stores and OS output, and a handler that saves/restores what it uses and returns "
+             "with RTI: one interrupt placed at every instruction boundary (all boundaries in thorough, every 3rd in "
+             "quick) for priorities 1/4/7 against program priorities 0 and 3, pairs of interrupts (competing at one "
+             "boundary, nested inside the handler, successive), keyboard interrupts and exact timers; IntGate is evaluated "
+             "by TLC on every logged step (taken iff the highest pending priority exceeds the current one, winner, "
+             "supervisor mode, saved PSR/PC on the supervisor stack, vector), and each interrupted run is paired with "
+             "the uninterrupted run: equal registers, condition codes, R6, user memory digest, output, PC",
+        level_note="equal-priority arbitration is left open (the property does not fix it)")
+
+
+@check("C11")
+def c11(run):
+    run.trace_leg("traps", ["machine", "kind=traps"],
+                  verdict=["trap-return-pc", "trap-psr", "trap-user-memory", "trap-ssp", "trap-getc", "trap-out", "trap-puts",
+                           "trap-putsp", "trap-in", "trap-halt", "panic"])
+    return run.finish(
+        rule="each built-in trap (GETC, OUT, PUTS, IN, PUTSP, HALT) invoked from user code under real and virtual traps with "
+             "random strings (empty, odd/even packed lengths, bytes x01-xFF, words with high bits), random registers, "
+             "condition codes, priorities and keyboard queues; the real OS image executes step by step (validated against "
+             "Machine) and at the return TLC evaluates the contract on its own state: consumed input, emitted bytes "
+             "computed from memory, R0, all other registers, PSR, saved SP and all user memory",
+        level_note="the prompt of IN is read from the OS image at label S_IN_PROMPT; HALT is checked through run()")
+
+
+@check("C12")
+def c12(run):
+    r, path, n, rej = run.trace_leg("trapmode_rel", ["machine", "kind=trapmode"], spec="TV_Pairs", cfg="TV_Pairs.cfg",
+                                    verdict=PAIRV + ["real-traps-output-differs", "real-traps-registers-differ",
+                                                     "real-traps-user-memory-differs", "real-traps-no-halt",
+                                                     "exception-message-differs", "exception-no-halt"], expect_all=False)
+    run.trace_leg("trapmode_conf", ["machine", "kind=trapmode"], verdict=["panic"], path=path)
+    return run.finish(
+        rule="user programs with I/O traps, subroutines and stack use, some halting and some faulting (access violation "
+             "by load and by store, RTI in user mode, reserved opcode, invalid format), each run to completion under "
+             "virtual and under real traps from identical states; TLC checks on the two final states: halting programs "
+             "give the same output, R0-R5 and user memory and stop through the MCR; faulting programs print the OS "
+             "message of that exception after the same output and halt",
+        level_note="message texts are those of os.asm; both runs are validated against Machine (drift only)")
+
+
+@check("C32")
+def c32(run):
+    run.trace_leg("devices", ["machine", "kind=devices"], verdict=CONF + ["regvals"])
+    return run.finish(
+        rule="random histories over add_device (valid, occupied, non-I/O and repeated ports), remove_device (incl. fixed "
+             "and unknown ids), set_keyboard / set_display (buffered and custom devices), mmap_internal / munmap_internal, "
+             "read_mem / write_mem with default and omnipotent contexts at mapped, owned and unowned ports, then a short "
+             "program using two ports; after every call TLC compares results, device ids, the contents of every register "
+             "device, buffers, the memory mirror (full diff) and internal registers with the port-table model of Machine",
+        level_note="recording devices are register devices whose contents are part of the projection")
+
+
+@check("C33")
+def c33(run):
+    run.trace_leg("locks", ["machine", "kind=locks"],
+                  verdict=["lost-byte", "lost-byte:DevDisplayWriteWhileLocked", "lost-byte:DevKbdDataReadWhileLocked", "panic"])
+    return run.finish(
+        rule="echo program through GETC/OUT/PUTS; the harness thread holds the real RwLock of the keyboard or display "
+             "buffer across chosen step_in calls: every single-step hold position, pairs of holds, and random patterns "
+             "on longer inputs, real and virtual traps; at the end the display must show every queued byte exactly once "
+             "and in order; losses explained by the two transcribed try_write deviations are the known findings",
+        level_note="contention is at instruction-boundary granularity (where the simulator takes the lock)")
 
 
 @check("C34")
